@@ -8,7 +8,7 @@ from common import VERIF
 import panoptica.panoptica_aggregator as PA
 from props.c16 import mk_evaluator, subject_arrays, workdir, reference_row
 
-RULE = ("histories of 1-3 aggregator sessions on one output file under the controlled scheduler: every session = "
+RULE = ("several aggregator objects in one interpreter sharing one evaluator object (re-created on the same file, a neighbour with other options); histories of 1-3 aggregator sessions on one output file under the controlled scheduler: every session = "
         "constructor (each file/lock operation a step) followed by 1-3 evaluate() threads under a random schedule, cut by "
         "a crash (kill: threads and locks vanish, files stay) at a random point incl. inside the constructor; the last "
         "session resubmits all subjects and runs to completion; initial file states {absent, empty, header only, "
@@ -213,6 +213,57 @@ def siblings(ctx, n1, n2, src):
         shutil.rmtree(d, ignore_errors=True)
 
 
+def shared_evaluator_sessions(ctx, lt1, lt2, src):
+    """several aggregator objects in one interpreter sharing ONE evaluator object (a re-run cell, a loop over model
+    outputs): re-creating an aggregator on its own output file must work, and a neighbour on another file must get
+    exactly the columns its own options ask for"""
+    inp = {"mode": "shared-evaluator", "log_times": [lt1, lt2], "src": src}
+    d = workdir("c17shared")
+    try:
+        with quiet():
+            ev = mk_evaluator()
+            keys = list(mk_evaluator().resulting_metric_keys)        # what a fresh evaluator of this configuration advertises
+            groups = list(ev.segmentation_class_groups_names)
+            out, other = os.path.join(d, "run.tsv"), os.path.join(d, "other.tsv")
+            x, y = subject_arrays(1)
+            x2, y2 = subject_arrays(2)
+            err = None
+            try:
+                a1 = PA.Panoptica_Aggregator(ev, out, log_times=lt1)
+                a1.evaluate(x, y, "s1")
+                a2 = PA.Panoptica_Aggregator(ev, out, log_times=lt1)      # the same cell run again
+                a2.evaluate(x, y, "s1")
+                a2.evaluate(x2, y2, "s2")
+                b = PA.Panoptica_Aggregator(ev, other, log_times=lt2)
+                b.evaluate(x, y, "s1")
+                a3 = PA.Panoptica_Aggregator(ev, out, log_times=lt1)      # and once more after the neighbour was created
+                a3.evaluate(x2, y2, "s2")
+            except Exception as e:
+                err = f"{type(e).__name__}: {e}"
+        ctx.case(inp, True, sample=inp)
+        ctx.count("shared_evaluator_sessions")
+        if err:
+            ctx.violation(f"C17 violated: an aggregator could not be created again / used on its own output file with the same evaluator object: {err}",
+                          inp, key={"kind": "shared-evaluator"})
+            return
+        for path, lt, want_rows in ((out, lt1, ["s1", "s2"]), (other, lt2, ["s1"])):
+            with builtins.open(path, newline="") as f:
+                rows = list(csv.reader(f, delimiter="\t"))
+            cols = keys + (["computation_time"] if lt else [])
+            want_hdr = ["subject_name"] + [f"{g}-{m}" for g in groups for m in cols]
+            got = sorted(r[0] for r in rows[1:])
+            if rows[0] != want_hdr:
+                extra = [c for c in rows[0] if c not in want_hdr]
+                ctx.violation(f"C17 violated: header of {os.path.basename(path)} (log_times={lt}) has {len(rows[0])} columns instead of {len(want_hdr)}"
+                              f" (unexpected: {extra[:4]}) after other aggregators used the same evaluator object", inp, impl=rows[0][-4:],
+                              key={"kind": "shared-evaluator"})
+            elif got != want_rows or any(len(r) != len(want_hdr) for r in rows[1:]):
+                ctx.violation(f"C17 violated: {os.path.basename(path)} holds rows {got} (expected {want_rows}, each with {len(want_hdr)} cells)",
+                              inp, impl=got, key={"kind": "shared-evaluator"})
+    finally:
+        shutil.rmtree(d, ignore_errors=True)
+
+
 def rand_history(ctx, tag, i):
     rng = ctx.rng
     init = rng.choice(["absent", "empty", "header", "rows", "rows+buffer"])
@@ -255,6 +306,9 @@ def run(ctx):
             pairs.append((a + ".tsv", b + ".tsv"))
     for n1, n2 in pairs:
         siblings(ctx, n1, n2, f"sib.{n1}.{n2}")
+    for lt1 in (False, True):
+        for lt2 in (False, True):
+            shared_evaluator_sessions(ctx, lt1, lt2, f"shared.{lt1}.{lt2}")
 
 
 def search(ctx):
@@ -263,6 +317,9 @@ def search(ctx):
 
 
 def replay(ctx, rec):
+    if rec["input"].get("mode") == "shared-evaluator":
+        shared_evaluator_sessions(ctx, rec["input"]["log_times"][0], rec["input"]["log_times"][1], "replay")
+        return
     i = rec["input"]
     if i.get("mode") == "siblings":
         siblings(ctx, i["files"][0], i["files"][1], "replay")
